@@ -47,6 +47,13 @@ def handle (j : Json) : Except String Json := do
     return Json.arr ((lines.map (fun l => ss (words l.toList))).toArray)
   | .ok (Json.str "expand") =>
     return valsJ (expand (lines.map (·.toList)))
+  | .ok (Json.str "cards") =>
+    let b := blocks limit (lines.map (·.toList))
+    let cj (c : Card) : Json := Json.mkObj [("words", ss (words c.text)), ("dollar", ss c.dollar), ("ccomments", ss c.ccomments)]
+    return Json.mkObj [("message", ss b.message), ("title", s b.title),
+      ("head", ss b.head), ("surf_head", ss b.surfHead), ("data_head", ss b.dataHead),
+      ("cells", Json.arr (b.cells.map cj).toArray), ("surfaces", Json.arr (b.surfaces.map cj).toArray),
+      ("data", Json.arr (b.data.map cj).toArray)]
   | .ok (Json.str "number") =>
     return Json.arr ((lines.map (fun l => match parseNumber l.toList with | some q => qJ q | none => Json.null)).toArray)
   | _ => return probJ (denote limit (lines.map (·.toList)))
